@@ -31,9 +31,9 @@ class C15(Prop):
             "history; 6% of the histories instead run 2..4 concurrent RouterHandler sessions (REQ, EVENT, CLOSE, leave) plus a registry walker over the nested safeMaps, with no recorded operations (race detector only); 30% of the histories go through concurrent CacheHandler sessions (ServeNostr: EVENT/OK, REQ/EVENT*/"
             "EOSE) sharing the store; events from a pool of 4..12 RELATED events (2-3 versions of one addressable address, "
             "two versions of a replaceable one, regular events of two authors, deletion requests referencing them by id "
-            "and by address, a quarter of the pools with a request that names an earlier request first and a further target after "
+            "and by address, 40% of the pools with a request that names an earlier request (itself naming two things) first and a further target after "
             "it, a quarter of the regular events with one single-letter tag twice under a value nobody else carries followed by "
-            "a further tag, one pool in ten with created_at values at the ends of int64, "
+            "a further tag, 15% of the pools with created_at values at the ends of int64, "
             "an occasional ephemeral event, re-offered duplicates), capacity 1..4; schedule noise "
             "(Gosched, spinning, 1us sleep) before the invocation stamp or between the stamp and the call; every operation "
             "carries inv/resp stamps of one atomic clock; the process runs under GORACE=halt_on_error=1 and a stopped "
